@@ -2,6 +2,8 @@ package main
 
 import (
 	"fmt"
+	"go/parser"
+	"go/token"
 	"os"
 	"path/filepath"
 	"regexp"
@@ -446,6 +448,13 @@ func runRandProj(e *env, n int) error {
 		if p.Constr != "\x00" {
 			want = p.Constr
 		}
+		for mode, o := range rs.hist {
+			for rel, content := range o.outputs {
+				if _, err := parser.ParseFile(token.NewFileSet(), rel, content, parser.SkipObjectResolution); err != nil && o.exit == 0 {
+					viol("a file left behind by a successful run over a previous output ("+mode+") is not valid Go", map[string]any{"file": rel, "error": err.Error()})
+				}
+			}
+		}
 		for rel, content := range rs.clean.outputs {
 			lines := strings.SplitN(content, "\n", 3)
 			if len(lines) < 2 || !strings.HasPrefix(lines[0], "// Code generated by github.com/jmattheis/goverter, DO NOT EDIT.") {
@@ -488,7 +497,7 @@ func runRandProj(e *env, n int) error {
 // randProjFor: the properties whose check ends with the compositional projects.
 func randProjFor(e *env) error {
 	switch e.prop {
-	case "C09", "C15", "C16", "C17":
+	case "C01", "C09", "C15", "C16", "C17":
 	default:
 		return nil
 	}
